@@ -15,7 +15,7 @@ const (
 	A2 key.Reason = "danhengimbibitorlunae-a4"
 )
 
-func (c *char) initTraces() {
+func init() {
 	modifier.Register(A4, modifier.Config{})
 	modifier.Register(A6, modifier.Config{
 		StatusType: model.StatusType_UNKNOWN_STATUS,
@@ -24,6 +24,9 @@ func (c *char) initTraces() {
 		},
 		CanModifySnapshot: true,
 	})
+}
+
+func (c *char) initTraces() {
 	if c.info.Traces["101"] {
 		c.engine.ModifyEnergy(info.ModifyAttribute{
 			Key:    A2,
